@@ -151,6 +151,13 @@ def _work_mem(job):
         return dict(name=str(idx), verdict="error", solver="z3", time=time.time() - t0, model=None, reason=repr(e))
 
 
+def _work_mem_tagged(job):
+    flags = _SHARED.get("decided")
+    if flags is not None and flags[job[0]]:
+        return job, dict(name=str(job[0]), verdict="skip", solver="", time=0.0, model=None, reason="already decided by another formulation")
+    return job, _work_mem(job)
+
+
 def _discharge_base(obls, timeout_ms=20000, jobs=None, fallback=True):
     """every obligation: (1) non-linear abstraction (sound for 'unsat' only), (2) the exact VC, (3) an equivalent goal
     formulation / other assertion orders, (4) cvc5 / z3-4.8 on the SMT-LIB text.  Steps 1-3 run in forked workers that
@@ -178,24 +185,35 @@ def _discharge_base(obls, timeout_ms=20000, jobs=None, fallback=True):
     # (2) what stayed open: all the alternatives side by side - the non-linear abstraction (sound for 'unsat' only), an equivalent
     #     formulation of the goal, the other assertion orders (solver heuristics are order sensitive), the full budget
     jobs2 = []
-    for i in open_:
-        if os.environ.get("PYVC_NLABS", "1") != "0":
-            jobs2.append((i, 0, False, True, timeout_ms, False))
-        if obls[i].extra.get("alt_goal") is not None:
-            jobs2.append((i, 0, True, False, timeout_ms, True))
-        if quick < timeout_ms:
-            jobs2.append((i, 0, False, False, timeout_ms, True))
-        for order in (1, 2):
-            jobs2.append((i, order, False, False, timeout_ms, True))
-    for job, r2 in zip(jobs2, run(jobs2)):
-        i, order, alt, abstract = job[:4]
-        cur = results[i]["verdict"]
-        if r2["verdict"] == "unsat" and cur != "unsat":
-            r2["solver"] += " (nl-abstraction)" if abstract else (" (reformulated)" if (alt or order) else "")
-            results[i] = r2
-        elif r2["verdict"] == "sat" and not abstract and cur in ("unknown", "error"):
-            r2["solver"] += " (reformulated)" if (alt or order) else ""
-            results[i] = r2
+    if os.environ.get("PYVC_NLABS", "1") != "0":
+        jobs2 += [(i, 0, False, True, timeout_ms, False) for i in open_]
+    jobs2 += [(i, 0, True, False, timeout_ms, True) for i in open_ if obls[i].extra.get("alt_goal") is not None]
+    for order in (1, 2):
+        jobs2 += [(i, order, False, False, timeout_ms, True) for i in open_]
+    # the cheap alternatives first, the full-budget repeat of the first attempt last; the pool is stopped as soon as every open
+    # obligation has a definite answer (the alternatives of an obligation that is already decided are not waited for)
+    if quick < timeout_ms:
+        jobs2 += [(i, 0, False, False, timeout_ms, True) for i in open_]
+    if jobs2:
+        pending = set(open_)
+        flags = _SHARED["decided"] = ctx.Array("b", len(obls), lock=False)  # read by the workers: skip what is decided
+        with ctx.Pool(jobs) as pool:
+            for job, r2 in pool.imap_unordered(_work_mem_tagged, jobs2, chunksize=1):
+                i, order, alt, abstract = job[:4]
+                cur = results[i]["verdict"]
+                if r2["verdict"] == "unsat" and cur != "unsat":
+                    r2["solver"] += " (nl-abstraction)" if abstract else (" (reformulated)" if (alt or order) else "")
+                    results[i] = r2
+                    pending.discard(i)
+                    flags[i] = 1
+                elif r2["verdict"] == "sat" and not abstract and cur in ("unknown", "error"):
+                    r2["solver"] += " (reformulated)" if (alt or order) else ""
+                    results[i] = r2
+                    pending.discard(i)
+                    flags[i] = 1
+                if not pending:
+                    pool.terminate()
+                    break
     out = []
     for ob, r in zip(obls, results):
         if r["verdict"] in ("unknown", "error") and fallback and ob.kind != "canary":
@@ -205,6 +223,7 @@ def _discharge_base(obls, timeout_ms=20000, jobs=None, fallback=True):
         r["obligation"] = ob
         out.append(r)
     _SHARED.pop("obls", None)
+    _SHARED.pop("decided", None)
     return out
 
 
